@@ -37,6 +37,7 @@ type Contract struct {
 	Modifies []*Clause
 	Loops    map[int]*LoopContract
 	Unlocks  []UnlockClause // obligations at the n-th Unlock/Wait site of the function
+	Returns  []UnlockClause // obligations at the n-th return statement (source order) of the function
 	Decreases *Clause // termination measure for (mutually) recursive functions
 	Ghosts   []SpecParam // ghost parameters (universally quantified in the callee, bound by unique type match at call sites)
 	Line     int
@@ -141,7 +142,7 @@ func parseContractFile(path string) (*ContractFile, error) {
 	sc := bufio.NewScanner(f)
 	sc.Buffer(make([]byte, 1<<20), 1<<20)
 	ln := 0
-	kwRe := regexp.MustCompile(`^(props|overflow|requires|ensures|modifies|loop|trusted|attr|induction|ghost|decreases|unlock|dead)\b\s*(.*)$`)
+	kwRe := regexp.MustCompile(`^(props|overflow|requires|ensures|modifies|loop|trusted|attr|induction|ghost|decreases|unlock|return|dead)\b\s*(.*)$`)
 	for sc.Scan() {
 		ln++
 		line := strings.TrimSpace(sc.Text())
@@ -385,6 +386,17 @@ func parseContractFile(path string) (*ContractFile, error) {
 						return nil, err
 					}
 					c.Unlocks = append(c.Unlocks, UnlockClause{Ord: n, C: cl})
+				case "return":
+					m := regexp.MustCompile(`^(\d+)\s*:\s*(.*)$`).FindStringSubmatch(rc.text)
+					if m == nil {
+						return nil, fmt.Errorf("%s:%d: bad return clause (want `return <n>: expr`)", path, rc.line)
+					}
+					n, _ := strconv.Atoi(m[1])
+					cl, err := mkClause(m[2], rc.line)
+					if err != nil {
+						return nil, err
+					}
+					c.Returns = append(c.Returns, UnlockClause{Ord: n, C: cl})
 				case "decreases":
 					cl, err := mkClause(rc.text, rc.line)
 					if err != nil {
